@@ -107,7 +107,7 @@ func (w *world) canon() (*canonView, *simcore.Violation) {
 			break
 		}
 	}
-	for n := cv.hdr + 1; n <= w.tree.maxNum+2; n++ {
+	for n := cv.hdr + 1; n <= w.tree.maxNum+2 && !w.crashed; n++ {
 		if h := rawdb.ReadCanonicalHash(w.db, n); h != (common.Hash{}) {
 			fin := "none"
 			if f := bc.CurrentFinalBlock(); f != nil {
